@@ -32,7 +32,10 @@ K1 = {
     "bitwise_not_int":          ("quick", ["C09"], "proof", None, 600),
     "bitwise_float_is_none":    ("quick", ["C09"], "proof", None, 600),
     "mixed_promotes_to_float":  ("quick", ["C09"], "proof", None, 900),
-    "integer_divide_float":     ("quick", ["C09"], "proof", None, 900),
+    "integer_divide_float":     ("deep", ["C09"], "proof", None, 7200),      # in-range half: symbolic f64 division, > 15 min
+    "integer_divide_float_quarters_8bit":  ("quick", ["C09"], "bounded", "operands k/4 with k in -128..=127", 900),
+    "integer_divide_float_quarters_16bit": ("thorough", ["C09"], "bounded", "operands k/4 with k in -32768..=32767", 1800),
+    "integer_divide_float_out_of_range": ("quick", ["C09"], "proof", None, 900),
     "unary_float":              ("quick", ["C09"], "proof", None, 900),
     "plus_float":               ("thorough", ["C09"], "proof", None, 1800),
     "subtract_float":           ("thorough", ["C09"], "proof", None, 1800),
@@ -90,15 +93,22 @@ def _env(unit, repo):
 def run_harness(crate, env, h, timeout, extra=None):
     cmd = ["cargo", "kani", "--harness", "harness::" + h, "--exact", "--output-format", "terse"] + (extra or [])
     t0 = time.time()
+    import signal
+    proc = subprocess.Popen(cmd, cwd=crate, env=env, stdout=subprocess.PIPE, stderr=subprocess.STDOUT, text=True, start_new_session=True)
     try:
-        p = subprocess.run(cmd, cwd=crate, env=env, capture_output=True, text=True, timeout=timeout)
-        out = p.stdout + "\n" + p.stderr
+        out, _ = proc.communicate(timeout=timeout)
         status = "ran"
-    except subprocess.TimeoutExpired as ex:
-        out = (ex.stdout or b"").decode(errors="replace") if isinstance(ex.stdout, bytes) else (ex.stdout or "")
+    except subprocess.TimeoutExpired:
+        # kill the whole process group (cargo-kani, kani-driver, cbmc) - never by name
+        try:
+            os.killpg(proc.pid, signal.SIGKILL)
+        except ProcessLookupError:
+            pass
+        try:
+            out, _ = proc.communicate(timeout=30)
+        except Exception:
+            out = ""
         status = "timeout"
-        # make sure no cbmc of ours is left behind
-        subprocess.run(["pkill", "-f", f"{os.path.basename(crate)}.*{h}"], capture_output=True)
     return {"harness": h, "status": status, "out": out, "wall_s": time.time() - t0, "cmd": " ".join(cmd)}
 
 
